@@ -215,6 +215,23 @@ func runHistory(hc *HistoryCase, root string, base *baseline) []Violation {
 				if n := p.ConventionalFileName(info); n != base.names[op.Format] {
 					vs.add("C11.filename-changed", op.Format, "%s: file name %q, a fresh parse gives %q", step, n, base.names[op.Format])
 				}
+			case "name+package":
+				// the file name is asked first and the very same effective settings are then packaged (what the CLI does for a directory target)
+				info, err := effective(&cfg, op.Format)
+				if err != nil {
+					vs.add("C11.get-error", op.Format, "%s: %v", step, err)
+					break
+				}
+				p, _ := nfpm.Get(op.Format)
+				if n := p.ConventionalFileName(info); n != base.names[op.Format] {
+					vs.add("C11.filename-changed", op.Format, "%s: file name %q, a fresh parse gives %q", step, n, base.names[op.Format])
+				}
+				var buf bytes.Buffer
+				if err := p.Package(info, &buf); err != nil {
+					vs.add("C11.package-error", op.Format, "%s: %v", step, err)
+				} else if !bytes.Equal(buf.Bytes(), base.bytes[op.Format]) {
+					vs.add("C11.package-differs", op.Format, "%s: packaging the settings the file name was asked for differs from a fresh build (%d vs %d bytes)%s", step, buf.Len(), len(base.bytes[op.Format]), describeDiff(op.Format, buf.Bytes(), base.bytes[op.Format]))
+				}
 			case "package":
 				out, err := PackageFromConfig(&cfg, op.Format)
 				if err != nil {
@@ -287,7 +304,7 @@ func genRichCase(t *rapid.T) *BuildCase {
 	c := genBuildCase(t, o)
 	genFullMeta(t, c)
 	c.Meta.Platform = ""
-	c.Meta.Arch = rapid.SampledFrom([]string{"amd64", "386", "arm64", "arm7", "all"}).Draw(t, "arch2")
+	c.Meta.Arch = rapid.SampledFrom(docArches).Draw(t, "arch2")
 	if c.X != nil {
 		c.X.DebArch, c.X.RPMArch, c.X.APKArch, c.X.ArchArch, c.X.IPKArch = "", "", "", "", ""
 	}
@@ -343,7 +360,7 @@ func hasPointeeData(c *BuildCase) bool {
 func nontrivialHistory(hc *HistoryCase) bool {
 	fs := map[string]bool{}
 	for _, o := range hc.Ops {
-		if o.Kind == "package" {
+		if o.Kind == "package" || o.Kind == "name+package" {
 			fs[o.Format] = true
 		}
 	}
@@ -393,12 +410,27 @@ func TestC11(t *testing.T) {
 		}
 	}
 	st.Exhaustive["orders of the five packagings x configurations"] = nOrders
+	// every documented architecture x format: the file name is asked first, then the same settings are packaged, twice
+	nArch := 0
+	for _, a := range docArches {
+		c := metaBaseCase()
+		c.Meta = Meta{Name: "archseq", Arch: a, Version: "1.0.0", Maintainer: "V <v@example.com>", Description: "d"}
+		var ops []Op
+		for _, f := range AllFormats {
+			ops = append(ops, Op{Kind: "name+package", Format: f}, Op{Kind: "name+package", Format: f}, Op{Kind: "filename", Format: f})
+		}
+		hc := &HistoryCase{Case: c, Ops: ops}
+		st.Record(map[string]any{"arch-sequence": a}, true, "arch-name-then-package")
+		nArch += len(AllFormats)
+		st.Report(t, hc, checkHistory(hc))
+	}
+	st.Exhaustive["architecture x format: file name then package on the same settings"] = nArch
 	rapid.Check(t, func(rt *rapid.T) {
 		c := genRichCase(rt)
 		var ops []Op
 		n := rapid.IntRange(1, 8).Draw(rt, "nops")
 		for i := 0; i < n; i++ {
-			kind := rapid.SampledFrom([]string{"package", "package", "package", "filename", "validate"}).Draw(rt, fmt.Sprintf("op%d", i))
+			kind := rapid.SampledFrom([]string{"package", "package", "package", "filename", "validate", "name+package"}).Draw(rt, fmt.Sprintf("op%d", i))
 			op := Op{Kind: kind}
 			if kind != "validate" {
 				op.Format = rapid.SampledFrom(AllFormats).Draw(rt, fmt.Sprintf("fmt%d", i))
